@@ -2,6 +2,7 @@
 import gens_split as G
 import splitcommon as SC
 from props import c04_selfref as SR
+from props import c04_keys as KY
 
 ENGINE = "split"
 RULE = ("triples (D1, X, D2): D1, D2 grammar documents (D1 ending in a complete block, D2 starting with '@type{' at a line start, "
@@ -31,6 +32,14 @@ RULE = ("triples (D1, X, D2): D1, D2 grammar documents (D1 ending in a complete 
         "stacks on documents with failed blocks of every kind, as X between plain or written D1 / D2, or the whole D1+X+D2 written "
         "and cut again into written D1, middle, written D2. For documents made of own blocks the statement is also checked on the "
         "library returned with the default middleware stack (oracle only). "
+        "Stream KEY (c04_keys.py): one name used by blocks of different kinds and of different parts - an @string name and an "
+        "entry key (both orders), an entry key and a field name / field text / entry type / preamble text / comment text / "
+        "free-text line / the key of an entry that repeats a field / the key of a cut-off block of X, the same entry key twice, "
+        "the same string name twice, spellings that differ in letter case only - the two occurrences in D1-D1, D1-X, D1-D2, "
+        "X-X, X-D2, D2-D2, and random mixes of 3-5 occurrences; expected from C04 + C09 with the generator's knowledge of the "
+        "source blocks: the parse returns, one block per source block of D1 and D2, raw and start line of the source, kind and "
+        "key as on its own except that an entry / string behind a live block of the same kind and key is the duplicate-key "
+        "block (key, previous_block = that first live block, the complete duplicate inside); empty and default stacks. "
         "distinct = distinct (D1, X, D2); non-trivial = X is non-empty and not whitespace")
 TRUSTED = ["the decomposition into D1 / X / D2 is the generator's"]
 ASSUMPTIONS = []
@@ -103,6 +112,8 @@ def generate(rng, tier):
                 cases.append({"stream": "TR", "input": {"d1": rng.choice(d1s), "x": x, "d2": d2, "state": state, "hclass": hclass}})
     # the library's own artefacts as X and at the edges of D1 / D2 (appended last: the draws above stay as they were)
     cases += SR.gen(rng, tier, _truncated)
+    # one name used by blocks of different kinds / of different parts (appended last: the draws above stay as they were)
+    cases += KY.gen(rng, tier, _truncated)
     return cases
 
 
@@ -395,6 +406,8 @@ def _parse_default(text):
 def impl(case):
     inp = case["input"]
     notes = []
+    if "kt" in inp:
+        return _impl_keys(case)
     if "sr" in inp:
         # the library's own artefacts: the texts are made here, from the tree under test (c04_selfref.py)
         d1, x, glue, d2, notes = SR.materialise(inp)
@@ -422,5 +435,29 @@ def impl(case):
     return rec
 
 
+def _impl_keys(case):
+    """stream KEY: the expectation is stated from the source blocks the generator laid out (c04_keys.judge)"""
+    inp = case["input"]
+    d1, x, d2 = inp["d1"], inp["x"], inp["d2"]
+    rec, r = SC.base_record(d1 + x + "\n" + d2)
+    ok, detail = KY.judge(SC.split_impl, inp, _view, _same, r)
+    if ok:
+        # no field of these documents refers to an @string: the statement also holds for the library that parse_string returns
+        # with its default middleware stack (no model counterpart, the oracle alone decides); the stack leaves the inside of a
+        # failed block alone, so the inside of a wrapper caused by D1 / X is compared on class, raw, line and key only
+        ok, detail = KY.judge(_parse_default, inp, _view, _same, None, full_inner=False)
+        if not ok:
+            detail = "default parse stack: " + detail
+    if not ok:
+        detail += " :: D1 %r X %r D2 %r" % (d1, x, d2)
+    rec["oracle"] = {"ok": ok, "detail": detail}
+    rec["nontrivial"] = True
+    rec["key"] = str(hash((d1, x, d2)))
+    rec["tags"] = [case["stream"]] + list(inp["kt"]) + ["KEY-default-stack-too"]
+    return rec
+
+
 def shrink(case):
+    if "kt" in case["input"]:
+        return iter(())                 # the expectation is tied to the source blocks as laid out
     return SC.shrink_text(case, "x")
